@@ -19,6 +19,8 @@ def _arg(a) -> str:
 
 
 def _operand(o) -> str:
+    if o["k"] == "blit":
+        return "True" if o["v"] == 11 else "False"
     return str(o["v"]) if o["k"] == "int" else o["n"]
 
 
@@ -32,6 +34,8 @@ def render(e, parent: str | None = None, right: bool = False) -> str:
         inner = render(e["e"], "not")
         s = f"not {inner}"
         return f"({s})" if parent in ("and_r", "or_r") and False else s
+    if t == "opd":
+        return _operand(e["o"])
     if t == "cmp":
         s = _operand(e["left"]) + "".join(f" {r['op']} {_operand(r['right'])}" for r in e["rest"])
         return s
@@ -70,6 +74,8 @@ def _parg(node):
 
 
 def _poperand(node):
+    if isinstance(node, ast.Constant) and isinstance(node.value, bool):
+        return {"k": "blit", "v": 11 if node.value else 10}
     if isinstance(node, ast.Constant) and isinstance(node.value, int) and not isinstance(node.value, bool):
         return {"k": "int", "v": node.value}
     if isinstance(node, ast.Name):
@@ -92,6 +98,8 @@ def from_ast(node):
         return {"t": "cmp", "left": _poperand(node.left), "rest": rest}
     if isinstance(node, ast.Call) and isinstance(node.func, ast.Attribute) and isinstance(node.func.value, ast.Name) and len(node.args) == 1 and not node.keywords:
         return {"t": "call", "recv": node.func.value.id, "fn": node.func.attr, "arg": _parg(node.args[0])}
+    if isinstance(node, ast.Name) and node.id in ("x", "y", "z", "t"):
+        return {"t": "opd", "o": _poperand(node)}
     if isinstance(node, ast.Name):
         return {"t": "name", "n": node.id}
     raise NotInAlgebra(ast.dump(node))
